@@ -119,8 +119,9 @@ Definition simple_init_stmt (k : nat) (s : stmt) : bool :=
   end.
 
 (* the body of a function whose result has the kind rk: any statement list if the result is plain; for a function
-   result the last statement is a function-valued expression of that kind, and nothing before it or in it can leave the
-   body early (so the value of the call is the value of that expression) *)
+   result the last statement is a function-valued expression of that kind (or `ret` of one); before it come statements
+   that cannot leave the body (local functions, definitions without if-expressions) and then GUARDS
+   `if c do ret <function value> end`: early returns of function values of that kind *)
 (* the last statement of a function that returns a function: the function-valued expression itself, or `ret` of it *)
 Definition tail_fexpr (s : stmt) : option expr :=
   match s with
@@ -129,18 +130,44 @@ Definition tail_fexpr (s : stmt) : option expr :=
   | _ => None
   end.
 
+(* a guard: `if c do ret <function value> end` *)
+Definition guard_parts (s : stmt) : option (expr * expr) :=
+  match s with
+  | SStatementExpression (EIf [IfBranch (Some c) [SRet (Some fx) _] _] _) _ => Some (c, fx)
+  | _ => None
+  end.
+
+(* the statements before the first guard, and the rest *)
+Fixpoint take_init (l : list stmt) : list stmt * list stmt :=
+  match l with
+  | [] => ([], [])
+  | s :: t => match guard_parts s with
+              | Some _ => ([], l)
+              | None => let (i, g) := take_init t in (s :: i, g)
+              end
+  end.
+
 Definition fbody_check (stmts : list stmt -> option (list N * list (N * kind)))
-           (fexpr : list (N * kind) -> list N -> expr -> option kind) (k : nat) (body : list stmt) (rk : kind) : bool :=
+           (fexpr : list (N * kind) -> list N -> expr -> option kind)
+           (pexpr : list (N * kind) -> list N -> expr -> bool) (k : nat) (body : list stmt) (rk : kind) : bool :=
   match rk with
   | KP => match stmts body with Some _ => true | None => false end
   | KF _ _ =>
       match split_last body with
-      | Some (init, last) =>
+      | Some (pre, last) =>
           match tail_fexpr last with
           | Some e =>
+              let (init, guards) := take_init pre in
               forallb (simple_init_stmt k) init && noexit_fexpr k e &&
               match stmts init with
-              | Some (sc1, fl1) => match fexpr fl1 sc1 e with Some K => kind_eqb K rk | None => false end
+              | Some (sc1, fl1) =>
+                  match fexpr fl1 sc1 e with Some K => kind_eqb K rk | None => false end &&
+                  forallb (fun g => match guard_parts g with
+                                    | Some (c, fx) =>
+                                        noexit_expr k c && pexpr fl1 sc1 c && noexit_fexpr k fx &&
+                                        match fexpr fl1 sc1 fx with Some K => kind_eqb K rk | None => false end
+                                    | None => false
+                                    end) guards
               | None => false
               end
           | None => false
@@ -233,7 +260,7 @@ with frag_fexpr (fl : list (N * kind)) (k : nat) (sc : list N) (x : expr) {struc
           let rk := kind_of_ty ret in
           if params_ok fl sc ps
              && fbody_check (frag_stmts (snd (bind_scope ps ks sc fl)) k (fst (bind_scope ps ks sc fl)))
-                            (fun fl1 sc1 e => frag_fexpr fl1 k sc1 e) k body rk
+                            (fun fl1 sc1 e => frag_fexpr fl1 k sc1 e) (fun fl1 sc1 e => frag_expr fl1 k sc1 e) k body rk
           then Some (KF ks rk) else None
       | ECall (ERead f _) args _ =>                                   (* a call that returns a function *)
           if f =? pv then None else
@@ -326,7 +353,7 @@ with frag_stmts (fl : list (N * kind)) (k : nat) (sc : list N) (ss : list stmt) 
               let fl' := (fv, KF ks rk) :: fl in
               if fresh_id fl sc fv && params_ok fl' sc ps
                  && fbody_check (frag_stmts (snd (bind_scope ps ks sc fl')) k (fst (bind_scope ps ks sc fl')))
-                                (fun fl1 sc1 e => frag_fexpr fl1 k sc1 e) k body rk
+                                (fun fl1 sc1 e => frag_fexpr fl1 k sc1 e) (fun fl1 sc1 e => frag_expr fl1 k sc1 e) k body rk
               then frag_stmts fl' k sc ss' else None
           | _ =>
               match frag_stmt fl k sc s with
@@ -391,7 +418,7 @@ Fixpoint frag_items (pv sv bound : N) (k : nat) (scg : list N) (fl : list (N * k
           let fl' := (fv, KF ks rk) :: fl in
           if fresh_id pv sv bound fl scg fv && params_ok pv sv bound fl' scg ps
              && fbody_check (frag_stmts pv sv bound (snd (bind_scope ps ks scg fl')) k (fst (bind_scope ps ks scg fl')))
-                            (fun fl1 sc1 e => frag_fexpr pv sv bound fl1 k sc1 e) k body rk
+                            (fun fl1 sc1 e => frag_fexpr pv sv bound fl1 k sc1 e) (fun fl1 sc1 e => frag_expr pv sv bound fl1 k sc1 e) k body rk
           then frag_items pv sv bound k scg fl' rest else None
       | SDefinition _ x _ _ v _ =>
           match frag_stmt pv sv bound fl k scg s with
@@ -406,7 +433,11 @@ Fixpoint frag_items (pv sv bound : N) (k : nat) (scg : list N) (fl : list (N * k
       end
   end.
 
-(* STAGE 4j (4i + `ret` OF A FUNCTION VALUE as the last statement of a function that returns a function: `ret fn x: int -> int do .. end`,
+(* STAGE 4k (4j + EARLY RETURNS OF FUNCTION VALUES: in the body of a function that returns a function, after the local
+   functions and definitions and before the last statement, GUARDS  `if c do ret <function value> end`  (c a plain
+   condition without if-expression; the value a lambda, a function name or a call that returns a function, of the
+   result kind): the first guard whose condition holds ends the call with its value (fbody_check, guard_parts);
+   4j = 4i + `ret` OF A FUNCTION VALUE as the last statement of a function that returns a function: `ret fn x: int -> int do .. end`,
    `ret mk(k)`, `ret f` (fbody_check, tail_fexpr);
    4i = 4h + COMPUTED CALLEES: in a call  c(a1, ..., an)  the callee c is the name of a function (as before) or any
    other function-valued expression -- a call that returns a function: mk(1)(2), curry(1)(2)(3); a lambda called where it
@@ -465,7 +496,7 @@ Fixpoint frag_items (pv sv bound : N) (k : nat) (scg : list N) (fl : list (N * k
    position, as the value of a constant or as the result of a function; a function name can be called and passed to a parameter of the same function kind, nothing
    else: so print, the operators, the conditions and the assignments only ever see plain values.
    NOT in the fragment: `ret` without a value (it returns Sylt's nil, the table __NIL), ASSIGNMENTS of function
-   values (`c = mk(2)`), `ret` of a function value anywhere but as the last statement, blobs, tuples, lists, enums/case, floats, division. *)
+   values (`c = mk(2)`), `ret` of a function value anywhere but as the last statement or in a guard (above), blobs, tuples, lists, enums/case, floats, division. *)
 Definition frag (k : nat) (r : resolved) : bool :=
   let bound := N.of_nat (length (r_vars r)) + 1 in
   match r_stmts r with
